@@ -881,6 +881,12 @@ class LSym:
                     if f_d and not t_d:
                         self.obligations.append(("panic edge %s:%s->%s" % (fn.name[-60:], lab, ins[4]), c_not(c), list(self.path)))
                         self.path.append(c); nxt = ins[3]; break
+                    arms = self.condbr_arms(fn, lab, c, ins)
+                    if arms is not None:
+                        r = self.fork_merge(fn, env, lab, arms)
+                        if r[0] == "ret": return r
+                        nxt = r[2]
+                        break
                     if self.allow_symbolic_branch:
                         d = self.allow_symbolic_branch(self, fn, lab, c, ins)
                         if d is not None: nxt = d; break
@@ -914,6 +920,49 @@ class LSym:
             prev, lab = lab, nxt
 
     # ------------------------------------------------------------------ fork / merge of branch arms (veritesting-style)
+    def condbr_arms(self, fn, lab, c, ins):
+        """None: ordinary two-way branch.  Subclasses return [(target, arm descriptor), (target, arm descriptor)] for a branch on a comparison
+        whose two sides are to be executed separately and merged at the join point (only offered when the region up to the join is acyclic)"""
+        return None
+    def succs(self, fn, l):
+        t = fn.block(l)[-1]; op = t[0]
+        if op == "br": return [t[2]]
+        if op == "condbr": return [t[3], t[4]]
+        if op == "switch": return [t[4]] + [x[1] for x in t[5]]
+        if op == "invoke": return [t[5], t[6]]
+        return []
+    def loop_heads(self, fn):
+        """targets of back edges of fn's control-flow graph"""
+        c = self.__dict__.setdefault("_loop_heads", {})
+        if fn.name not in c:
+            entry = fn.order[0]; color = {entry: 1}; heads = set(); stack = [(entry, iter(self.succs(fn, entry)))]
+            while stack:
+                n, itr = stack[-1]
+                for sx in itr:
+                    cc = color.get(sx, 0)
+                    if cc == 0: color[sx] = 1; stack.append((sx, iter(self.succs(fn, sx)))); break
+                    if cc == 1: heads.add(sx)
+                else:
+                    color[n] = 2; stack.pop()
+            c[fn.name] = heads
+        return c[fn.name]
+    def acyclic_region(self, fn, lab, targets):
+        """the blocks reachable from the targets without passing the immediate post-dominator of lab contain no loop header and do not leave the function"""
+        join = self.ipdom(fn, lab)
+        if join is None or join == "%%exit": return False
+        heads = self.loop_heads(fn); dm = self.doomed(fn)
+        seen = set(); todo = [t for t in targets if t != join]
+        while todo:
+            b = todo.pop()
+            if b in seen or b in dm: continue
+            seen.add(b)
+            if b in heads or b == lab: return False
+            if len(seen) > 64: return False
+            ss = self.succs(fn, b)
+            if not ss and fn.block(b)[-1][0] == "ret": return False
+            for x in ss:
+                if x != join: todo.append(x)
+        return True
     def switch_arms(self, v, ins):
         """None: ordinary switch.  Subclasses return [(target label, arm descriptor)] for a switch on an abstract value whose arms
         are to be executed separately and merged at the join point"""
